@@ -90,6 +90,42 @@ pub fn main_entry(hooks: bool) {
             if let Err(e) = corpus::check_conformance() {
                 machinery(&e);
             }
+            // Supervise: the exploration runs in a child process. The code under test is in-process
+            // there; if it overflows the stack or aborts, the child dies by a signal, which
+            // `catch_unwind` cannot turn into a verdict. That is reported here as a violation
+            // (the checks that are about termination additionally pin the state with worker
+            // subprocesses).
+            if std::env::var("VERIF_INNER").is_err() {
+                let exe = std::env::current_exe().unwrap_or_else(|e| machinery(&format!("current exe: {e}")));
+                let status = std::process::Command::new(exe)
+                    .args(&args)
+                    .env("VERIF_INNER", "1")
+                    .status()
+                    .unwrap_or_else(|e| machinery(&format!("cannot start the exploration process: {e}")));
+                match status.code() {
+                    Some(c) => std::process::exit(c),
+                    None => {
+                        use std::os::unix::process::ExitStatusExt;
+                        let sig = status.signal().unwrap_or(0);
+                        let dir = engine::verif_root().join("replays").join(&id);
+                        let _ = std::fs::create_dir_all(&dir);
+                        let path = dir.join("crash.json");
+                        let _ = std::fs::write(
+                            &path,
+                            serde_json::to_string_pretty(&serde_json::json!({
+                                "property": id,
+                                "signature": format!("{id}/crash/signal-{sig}"),
+                                "detail": format!("the exploration process was killed by signal {sig} while running the code under test in-process (stack overflow / abort in scale-typegen on one of the explored states); re-run `mc check {id} --tier {tier}` to reproduce"),
+                                "replay": {"check": "crash", "id": id, "tier": tier},
+                            }))
+                            .unwrap(),
+                        );
+                        println!("VIOLATION property={id} replay={}", path.display());
+                        eprintln!("  signature: {id}/crash/signal-{sig}");
+                        std::process::exit(1)
+                    }
+                }
+            }
             let code = checks::run_check(&id, &tier, seed).unwrap_or_else(|| machinery(&format!("unknown property {id}")));
             std::process::exit(code)
         }
